@@ -140,6 +140,7 @@ PLAN = {
     "C10": dict(
         rule="shapes x recipient lists of length 1-2 over {r1,r2} (X25519 / ML-KEM512 / ML-KEM768 per chain, duplicates allowed) x {encrypt_subject_to_recipients, encrypt_to_recipient, seal} then add_recipient / re-sharing by an existing recipient / another assertion, then decrypt_subject_to_recipient / decrypt_to_recipient / unseal with each private key and sender",
         quick=[RECIPIENT_Q],
+        thorough=[RECIPIENT_Q, dict(RECIPIENT_Q, name="recipient_t", cfg="recipient_t.cfg", rounds=2, timeout=3000)],
     ),
     "C11": dict(
         rule="every SSKR policy with <= 2 groups of <= 3 members (78 policies) x every subset of the generated shares x shapes; shares of two splits mixed in registers (same key / different key / decrypted copy)",
